@@ -189,11 +189,27 @@ def var_inside_rep(node, inside=False):
     return False
 
 
+def alt_inside_rep(node, inside=False):
+    """an alternation inside a quantifier: overlapping alternatives (`(?:\\d|\\d){32,}a`) double the work per repetition"""
+    k = node[0]
+    if k == "rep":
+        q = node[2]
+        small = q == "?" or (isinstance(q, list) and q[0] in ("n", "n,m") and max(q[1:]) <= 3)
+        return alt_inside_rep(node[1], inside or not small)
+    if k == "grp":
+        return alt_inside_rep(node[2], inside)
+    if k == "alt":
+        return inside or any(alt_inside_rep(n, inside) for n in node[1])
+    if k == "seq":
+        return any(alt_inside_rep(n, inside) for n in node[1])
+    return False
+
+
 def is_cheap_to_match(node):
     """no variable quantifier inside another quantifier (a fixed count `{n}` may sit inside one) and at most two
     open-ended quantifiers: matching (also *failing* to match, which is what re.search / Hypothesis' from_regex
     do a lot) stays polynomial with a small degree"""
-    return rep_depth(node) <= 2 and not var_inside_rep(node) and count_unbounded(node) <= 2
+    return rep_depth(node) <= 2 and not var_inside_rep(node) and count_unbounded(node) <= 2 and not alt_inside_rep(node)
 
 
 @st.composite
